@@ -294,8 +294,10 @@ class CommHandler:
             # send stop request
             self.stream_stop()
 
-            # drop all pending data
+            # drop all pending data, also what an earlier session left
+            # in the frame reassembly buffer
             self._drop_all()
+            self._prev_read = b""
 
             # start recv thread
             self._thrd.thread_start()
